@@ -206,8 +206,9 @@ func (e *Enc) applyCall(name, kind string, fn *ssa.Function, fc *FuncContract, c
 	}
 	// caller-side call-site obligations:  at <callee> requires ...
 	if e.fc != nil {
+		ord := e.callOrdinal(name, instrOf(c, e.curBlock))
 		for i, at := range e.fc.At {
-			if at.Callee != name {
+			if at.Callee != name && at.Callee != fmt.Sprintf("%s#%d", name, ord) {
 				continue
 			}
 			cenv := e.fnEnv(pre)
@@ -1228,6 +1229,12 @@ func (e *Enc) checkPost(rets []retRec) {
 		if label == "" {
 			label = "e" + itoa(i)
 		}
+		if strings.HasPrefix(cl.Label, "assume-") {
+			// an abstraction clause: relates the function to an uninterpreted spec function; it is assumed at call
+			// sites and listed as an assumption, not checked against the body
+			e.note("assumed abstraction clause of %s: %s", e.name, cl.Src)
+			continue
+		}
 		g, err := all(func(r retRec, env *Env) (Term, error) {
 			t, err := env.Eval(cl.Expr)
 			return t.T, err
@@ -1904,4 +1911,35 @@ func (e *Enc) terminationObligations() {
 		ob.Derived = true
 		e.obs = append(e.obs, ob)
 	}
+}
+
+// callOrdinal: index of this call among the calls of the same callee in the function, in source order.
+func (e *Enc) callOrdinal(name string, at ssa.Instruction) int {
+	if at == nil {
+		return -1
+	}
+	type site struct {
+		pos token.Pos
+		in  ssa.Instruction
+	}
+	var sites []site
+	for _, b := range e.fn.Blocks {
+		for _, in := range b.Instrs {
+			ci, ok := in.(ssa.CallInstruction)
+			if !ok {
+				continue
+			}
+			n, _, _ := e.calleeName(ci.Common())
+			if n == name {
+				sites = append(sites, site{in.Pos(), in})
+			}
+		}
+	}
+	sort.SliceStable(sites, func(i, j int) bool { return sites[i].pos < sites[j].pos })
+	for i, s := range sites {
+		if s.in == at {
+			return i
+		}
+	}
+	return -1
 }
